@@ -41,7 +41,7 @@ def main():
                                env=dict(os.environ, VERIF_SEED=seed))
             lines = [l for l in c.stdout.splitlines() if l.startswith(("VIOLATION", "   monitor", "INCONCLUSIVE", "RESULT", "KNOWN"))]
             out["check_%s_rc" % tier] = c.returncode
-            out["check_%s_monitors" % tier] = sorted({l.split("monitor=")[1].split()[0] for l in lines if "monitor=" in l})
+            out["check_%s_monitors" % tier] = ([l.split(": ", 1)[1] for l in c.stdout.splitlines() if l.startswith("MONITORS-FIRED")] or [""])[0].split(",")
             out["check_%s_tail" % tier] = lines[-1:] 
             out["check_%s_first_witness" % tier] = [l[:400] for l in lines if l.startswith("   monitor")][:2]
         print(json.dumps(out, indent=1))
